@@ -138,3 +138,16 @@ class get_stringtable:
     mode = 'assume'
     returns = Obj('_DynamicStringTable', _stream=Stream, _table_offset=U64)
     may_raise = ["ELFError", "OverflowError"]
+
+
+@contract("elftools/elf/dynamic.py", "Dynamic.iter_tags", props=["C09"])
+class iter_tags_public:
+    """the raw walk (_iter_tags: entries up to and including the first DT_NULL, filtered by type), each entry wrapped
+    in a DynamicTag with the dynamic string table: the same entries, in the same order, none dropped"""
+    params = dict(self=DynamicT(), type=Opt(Str))
+    requires = DYN_INV + ["self._num_tags == -1 or self._empty"]
+    yield_shape = TagRet
+    loops = {0: dict(invariant=["$k == $n"])}
+    each_yield = ["value.entry == $seq0[$n]"]
+    ensures = ["$n == len($seq0)"]
+    may_raise = ["ELFParseError", "OverflowError", "ELFError", "UnicodeDecodeError"]
